@@ -48,7 +48,6 @@ structure Far (f : Forest) (keep : Keep) (c : Nat) (t : HTree) (q : Nat) (vq : V
   kid : KidMap φ
   fix : φ t = t
   ysite : SiteAt Y q vq (Lq.map φ)
-  xsite : ∃ φ', KidMap φ' ∧ φ' t = t ∧ SiteAt X q vq (Lq.map φ')
   yleaf : (∀ k ∈ Lq, k.value.isText = true → k.kids = []) → ∀ k ∈ Lq.map φ, k.value.isText = true → k.kids = []
   spec : ∀ dest : Dest, dest.occupiedBy f c = false → dest.site f = some q →
     (∀ ψ, KidMap ψ → ψ t = t → NatFor ψ (dest.insert t)) →
@@ -62,7 +61,7 @@ theorem far_root {f : Forest} {keep : Keep} {c : Nat} {t : HTree} {q : Nat} {vq 
     Far f keep c t q vq Lq f (f.editAt none (dropTop c)) id := by
   have nd := sq.nd
   have hpar : f.parent? c = none := Forest.parent?_of_no_ctx hroot
-  refine ⟨nd, hgc, by rw [hpar], rfl, rfl, kidMap_id, rfl, ?_, ⟨id, kidMap_id, rfl, by rw [List.map_id]; exact sq⟩,
+  refine ⟨nd, hgc, by rw [hpar], rfl, rfl, kidMap_id, rfl, ?_,
     (by intro h; rw [List.map_id]; exact h), ?_, ?_⟩
   · rw [List.map_id]; exact sq.dropRoot hgc hq
   · intro dest hocc hs _
@@ -101,8 +100,9 @@ theorem far_kid {f : Forest} {keep : Keep} {po : Nat} {vo : Value} {l : List HTr
     (hkeep : ∀ a b, a ≠ t.handle → keep a b = true)
     (so : SiteAt f po vo (l ++ t :: r)) (sq : SiteAt f q vq Lq) (hne : po ≠ q) (hq : q ∉ handles t)
     (hvq : vq.isText = false) :
-    ∃ φ, Far f keep t.handle t q vq Lq (f.removeConsolidate (prevOf l t) (nextOf r t)).1
-      ((f.editAt (some po) (dropTop t.handle)).mergeAt keep (some po)) φ := by
+    (∃ φ, Far f keep t.handle t q vq Lq (f.removeConsolidate (prevOf l t) (nextOf r t)).1
+      ((f.editAt (some po) (dropTop t.handle)).mergeAt keep (some po)) φ) ∧
+    (∃ φ', KidMap φ' ∧ SiteAt (f.removeConsolidate (prevOf l t) (nextOf r t)).1 q vq (Lq.map φ')) := by
   have nd := sq.nd
   have hold := old_stage inv norm so
   have hleafo := so.leaf inv.valid
@@ -164,13 +164,12 @@ theorem far_kid {f : Forest} {keep : Keep} {po : Nat} {vo : Value} {l : List HTr
     exact hsubl.append ((List.Sublist.refl _).append hsubr)
   have sXq := so.other sq.kids hne.symm (fun _ => l1 ++ t :: r1) hsubX hlookX
   rw [← hX] at sXq
-  refine ⟨HTree.editAt po (fun _ => l1 ++ r1), sX.nd, sX.getKid, ?_, ?_, ?_, kidMap_editAt _ _,
-    editAt_of_not_mem t hpot, ?_, ?_, ?_, ?_, ?_⟩
+  refine ⟨⟨HTree.editAt po (fun _ => l1 ++ r1), sX.nd, sX.getKid, ?_, ?_, ?_, kidMap_editAt _ _,
+    editAt_of_not_mem t hpot, ?_, ?_, ?_, ?_⟩, ⟨_, kidMap_editAt _ _, sXq⟩⟩
   · rw [hXpar]; exact hcut
   · rw [hX]; rfl
   · rw [hY]; rfl
   · rw [hY]; exact sY
-  · exact ⟨_, kidMap_editAt _ _, editAt_of_not_mem t hpot, sXq⟩
   · -- text children of the destination are still leaves
     intro hlf k hk htx
     obtain ⟨k0, hk0, e⟩ := List.mem_map.1 hk
